@@ -195,6 +195,7 @@ def tasks(tier):
         ts += [("const-read", name), ("const-build", name), ("view", name), ("view-assign", name)]
     ts += [("enum-roundtrip",), ("flags", 0), ("flags", 1), ("flags", 2)]
     ts += [("class-const", c) for c in ("SDef", "SPlain", "UDef")]
+    ts += [("signal-of-layout", tier)]
     return ts
 
 
@@ -542,6 +543,33 @@ def check_class_const(cname):
     return res
 
 
+def check_signal_of_layout(tier):
+    """Every layout (listed and generated) can back a Signal -- in simulation and synthesis alike a layout is used through
+    Signal(layout) -- and the signal's view reads the fields at the declared places (D26: layouts with a signed shape-castable
+    field could not)."""
+    from amaranth.hdl import Signal
+    obs = []
+    for lname, layout in LAYOUTS().items():
+        if lname.startswith("gen") and int(lname[3:]) >= N_GENERATED["quick" if tier == "quick" else "thorough"]:
+            continue
+        bad = None
+        try:
+            sig = Signal(layout)
+            v = sig.as_value()
+            ok = len(v) == layout.size
+            for key, field in layout:
+                fv = sig[key]
+                fval = fv.as_value() if hasattr(fv, "as_value") else fv
+                ok = ok and len(fval) == field.width
+            if not ok:
+                bad = {"layout": repr(layout), "what": "Signal(layout) has the wrong width or field widths"}
+        except Exception as e:
+            bad = {"layout": repr(layout), "raised": repr(e)[:300], "how": "Signal(layout)"}
+        obs.append({"name": f"signal-of-layout[{lname}]", "kind": "post", "status": "proved" if bad is None else "refuted", "backend": "closed",
+                    "time_s": 0.0, **({} if bad is None else {"failing_input": bad})})
+    return {"task": "signal-of-layout", "paths": len(obs), "solver_s": 0.0, "obligations": obs}
+
+
 def check_view(lname, broken=False):
     from amaranth.hdl import Signal, Value, Shape
     U, A, D = _mods()
@@ -764,6 +792,8 @@ def run_task(task):
         return check_view_assign(task[1])
     if k == "class-const":
         return check_class_const(task[1])
+    if k == "signal-of-layout":
+        return check_signal_of_layout(task[1])
     if k == "enum-roundtrip":
         return check_enum_roundtrip()
     if k == "flags":
